@@ -9,6 +9,7 @@ import (
 	"errors"
 	"fmt"
 	"runtime"
+	"runtime/debug"
 	"sync"
 	"sync/atomic"
 	"time"
@@ -124,6 +125,7 @@ type e4Result struct {
 	DisconnectErr error
 	Disconnected  bool
 	Panic         interface{}
+	Hung          bool // abandoned by the watchdog: a client call never returned
 }
 
 func (r *e4Result) trace(max int) []string {
@@ -317,7 +319,91 @@ func (e *e4Env) settle(maxWait time.Duration, needAcks bool) (bool, bool) {
 
 var e4StuckAfter = 3 * time.Second
 
-func e4Run(c e4Case) (res *e4Result) {
+// e4HangAfter: a case whose runner is blocked inside the client (every public call of the client is made from
+// the runner's goroutine) while nothing at all happens anywhere - no packet, no dial, no callback - for this long
+// is abandoned as stuck.  It is far above every wait the runner itself performs with a verdict of its own (3 s
+// idle detector, 20 s marker wait, 20 s Disconnect, 30 s Connect), so it only fires when a client call never returns.
+var e4HangAfter = 60 * time.Second
+
+// e4Run runs the case on a goroutine of its own and watches it: a dead-locked client must end as a verdict
+// (Stuck, with a goroutine dump), not as a test binary that runs into its deadline.
+func e4Run(c e4Case) *e4Result {
+	type outcome struct {
+		res *e4Result
+		pv  interface{}
+		st  []byte
+	}
+	started := make(chan *e4Env, 1)
+	done := make(chan outcome, 1)
+	go func() {
+		var o outcome
+		defer func() {
+			if p := recover(); p != nil {
+				o.pv, o.st = p, debug.Stack()
+			}
+			done <- o
+		}()
+		o.res = e4RunBody(c, started)
+	}()
+	var e *e4Env
+	select {
+	case e = <-started:
+	case o := <-done:
+		if o.pv != nil {
+			panic(fmt.Sprintf("%v\n%s", o.pv, o.st))
+		}
+		return o.res
+	}
+	act := func() int64 { return e.log.lastSeq() + int64(e.d.dialCount()) }
+	last, lastChange := act(), time.Now()
+	tick := time.NewTicker(250 * time.Millisecond)
+	defer tick.Stop()
+	for {
+		select {
+		case o := <-done:
+			if o.pv != nil {
+				panic(fmt.Sprintf("%v\n%s", o.pv, o.st))
+			}
+			return o.res
+		case <-tick.C:
+			if a := act(); a != last {
+				last, lastChange = a, time.Now()
+				continue
+			}
+			if time.Since(lastChange) < e4HangAfter {
+				continue
+			}
+			// abandoned: the runner's goroutine (and whatever it is blocked in) is left behind
+			r := &e4Result{Case: c, Stuck: true, Hung: true}
+			r.Dump = fmt.Sprintf("the runner has been blocked inside a client call for %v with no activity anywhere\n", e4HangAfter) + vGoroutineDump()
+			r.Log = e.log.snapshot()
+			e.mu.Lock()
+			r.Reqs = append([]e4Req{}, e.res.Reqs...)
+			r.OnErrors = append([]e4OnErr{}, e.res.OnErrors...)
+			r.Handled = append([]e4Handled{}, e.res.Handled...)
+			e.mu.Unlock()
+			b := e.b
+			b.mu.Lock()
+			r.Subs = map[string]int{}
+			for k, v := range b.subs {
+				r.Subs[k] = v
+			}
+			r.Acked = map[string]int64{}
+			for k, v := range b.acked {
+				r.Acked[k] = v
+			}
+			r.Deliver = append([]vDelivery{}, b.deliveries...)
+			r.Fired = append([]string{}, b.firedFaults...)
+			r.ProtoErrs = append([]string{}, b.protoErrs...)
+			r.SubPkts = append([]vEvent{}, b.subPackets...)
+			b.mu.Unlock()
+			r.Dials = e.d.dialsSnapshot()
+			return r
+		}
+	}
+}
+
+func e4RunBody(c e4Case, started chan<- *e4Env) (res *e4Result) {
 	log := &vLog{}
 	b := newVBroker(log, c.Cfg.SessionKept, c.Cfg.MethodB, c.Faults)
 	b.grantMax = c.Cfg.GrantMax
@@ -325,6 +411,7 @@ func e4Run(c e4Case) (res *e4Result) {
 	d := &vdialer{b: b, maxRead: c.Cfg.MaxRead}
 	res = &e4Result{Case: c}
 	e := &e4Env{c: c, log: log, b: b, d: d, res: res}
+	started <- e
 	perConn := map[int]int{}
 	for _, in := range c.Inject {
 		perConn[in.Conn]++
